@@ -2,9 +2,9 @@ package main
 
 import (
 	"fmt"
-	"os"
 	"go/token"
 	"go/types"
+	"os"
 	"strings"
 
 	"golang.org/x/tools/go/ssa"
@@ -456,7 +456,6 @@ func sameState(sc *selCtx, a, b setState) bool {
 	}
 	return true
 }
-
 
 // highCoinsPremise: the offered slice starts at the cut-off index of a list sorted ascending by
 // value-age, the cut-off being the first index whose coin meets the selector's minimum — so every
